@@ -2,6 +2,10 @@ use serde::{Deserialize, Serialize};
 
 pub type Error = serde_bencode::Error;
 
+/// Maximum nesting of lists/dictionaries accepted in an incoming message. KRPC messages need three
+/// levels; the rest is headroom for unknown keys.
+const MAX_DEPTH: usize = 32;
+
 #[inline]
 pub(crate) fn encode<T>(value: &T) -> Result<Vec<u8>, Error>
 where
@@ -15,5 +19,71 @@ pub(crate) fn decode<'de, T>(bytes: &'de [u8]) -> Result<T, Error>
 where
     T: Deserialize<'de>,
 {
+    check_limits(bytes)?;
     serde_bencode::from_bytes(bytes)
+}
+
+/// Scan the first bencode value in `bytes` and reject it if a byte string declares a length
+/// that exceeds the remaining input or if containers are nested deeper than `MAX_DEPTH`.
+///
+/// The decoder allocates the declared length of a byte string before reading it and recurses once
+/// per nesting level, so without this check a short datagram could make it allocate gigabytes
+/// (or abort the process) or overflow the stack. Anything else that is wrong with the input is
+/// left for the decoder to report.
+fn check_limits(bytes: &[u8]) -> Result<(), Error> {
+    let mut pos = 0;
+    let mut depth = 0usize;
+
+    while let Some(&byte) = bytes.get(pos) {
+        pos += 1;
+
+        match byte {
+            b'i' => match bytes[pos..].iter().position(|b| *b == b'e') {
+                Some(end) => pos += end + 1,
+                None => return Ok(()),
+            },
+            b'0'..=b'9' => {
+                let Some(colon) = bytes[pos..].iter().position(|b| *b == b':') else {
+                    return Ok(());
+                };
+                let digits = &bytes[pos - 1..pos + colon];
+                pos += colon + 1;
+
+                if !digits.iter().all(u8::is_ascii_digit) {
+                    return Ok(());
+                }
+
+                // More digits than any `usize` has, or a value beyond the rest of the input.
+                let len = std::str::from_utf8(digits)
+                    .ok()
+                    .and_then(|digits| digits.parse::<usize>().ok());
+
+                match len {
+                    Some(len) if len <= bytes.len() - pos => pos += len,
+                    _ => {
+                        return Err(Error::InvalidLength(
+                            "byte string longer than the message".to_owned(),
+                        ))
+                    }
+                }
+            }
+            b'l' | b'd' => {
+                depth += 1;
+
+                if depth > MAX_DEPTH {
+                    return Err(Error::InvalidValue("message nested too deeply".to_owned()));
+                }
+
+                continue;
+            }
+            b'e' if depth > 0 => depth -= 1,
+            _ => return Ok(()),
+        }
+
+        if depth == 0 {
+            break;
+        }
+    }
+
+    Ok(())
 }
